@@ -19,3 +19,10 @@ for _m in sorted(pkgutil.iter_modules(__path__), key=lambda m: m.name):
             info = dict(info)
             info["assumptions"] = COMMON_ASSUMPTIONS + list(info.get("assumptions", []))
             PROPERTY_INFO[info["id"]] = info
+
+# "decided" = the rules that actually run for the property (own rules first), with each rule's one-line statement
+from ..core import RULES as _RULES   # noqa: E402
+
+for _pid, _info in PROPERTY_INFO.items():
+    _ids = sorted((r.id for r in _RULES.values() if _pid in r.props), key=lambda i: (not i.startswith(_pid + "."), i))
+    _info["decided"] = [f"{i}: {' '.join((_RULES[i].fn.__doc__ or '').split())[:220]}" for i in _ids]
